@@ -89,10 +89,10 @@ def obligations(tier):
     # ====================================================================== CP-ALS family
     WATCH = ("weights", "factors", "tensor", "norm_tensor")
 
-    def cp_setup(N, wts_sym=True):
+    def cp_setup(N, wts_sym=True, dtype="float64"):
         def setup(S):
             n = dims(N)
-            return dict(_S=S, X=S.input("X", n), w=S.input("w", [R]), fs=[S.input(f"U{k}", [n[k], R]) for k in range(N)],
+            return dict(_S=S, X=S.input("X", n, dtype), w=S.input("w", [R]), fs=[S.input(f"U{k}", [n[k], R], dtype) for k in range(N)],
                         e1=S.input("e_prev1", []), e2=S.input("e_prev2", []))
         return setup
 
@@ -145,6 +145,7 @@ def obligations(tier):
             ("l2_reg", dict(return_errors=True, l2_reg=0.5), (0, 1)),
             ("fixed_mode_0", dict(return_errors=True, fixed_modes=[0]), (0, 1)),
             ("cvg=rec_error", dict(return_errors=True, cvg_criterion="rec_error"), (1,)),
+            ("normalize_factors,fixed_mode_0", dict(return_errors=True, normalize_factors=True, fixed_modes=[0]), (0, 1)),
         ]:
             add("_cp:parafac", f"N={N},{opt_name}", cp_setup(N),
                 lambda I, kwargs=kwargs, its=its: run_cp_like(_cp.parafac, _cp, I, its, dict(kwargs)),
@@ -178,7 +179,10 @@ def obligations(tier):
                 add("_cp:parafac", f"N={N},linesearch,iteration-class={it}", cp_setup(N), lambda I, it=it, call_ls=call_ls: call_ls(I, (it,)), cp_post,
                     dict(order=N, options="linesearch", iteration_class=it))
         # ---- non-negative CP (multiplicative): clip results are uninterpreted elementwise functions
-        for opt_name, kwargs in [("plain", dict(return_errors=True)), ("normalize_factors", dict(return_errors=True, normalize_factors=True))]:
+        for opt_name, kwargs in [("plain", dict(return_errors=True)), ("normalize_factors", dict(return_errors=True, normalize_factors=True)),
+                                 ("fixed_mode_0", dict(return_errors=True, fixed_modes=[0])),
+                                 ("normalize_factors,fixed_mode_0", dict(return_errors=True, normalize_factors=True, fixed_modes=[0]))] + \
+                ([("normalize_factors,fixed_mode_1", dict(return_errors=True, normalize_factors=True, fixed_modes=[1]))] if N >= 3 else []):
             add("_nn_cp:non_negative_parafac", f"N={N},{opt_name}", cp_setup(N),
                 lambda I, kwargs=kwargs: run_cp_like(_nn.non_negative_parafac, _nn, I, (0, 1), dict(kwargs)),
                 cp_post, dict(order=N, options=opt_name), side_nonzero=("normalize" in opt_name))
@@ -192,15 +196,16 @@ def obligations(tier):
                 return S.record("HALS", real(UtM, UtU, V, **kw))
             return stub
         for opt_name, kwargs in [("plain", dict(return_errors=True)), ("nn_modes={0}", dict(return_errors=True, nn_modes={0})),
-                                 ("fixed_mode_0", dict(return_errors=True, fixed_modes=[0])), ("normalize_factors", dict(return_errors=True, normalize_factors=True))]:
+                                 ("fixed_mode_0", dict(return_errors=True, fixed_modes=[0])), ("normalize_factors", dict(return_errors=True, normalize_factors=True)),
+                                 ("normalize_factors,fixed_mode_0", dict(return_errors=True, normalize_factors=True, fixed_modes=[0]))]:
             add("_nn_cp:non_negative_parafac_hals", f"N={N},{opt_name}", cp_setup(N),
                 lambda I, kwargs=kwargs: run_cp_like(_nn.non_negative_parafac_hals, _nn, I, (0, 1), dict(kwargs), stubs=dict(hals_nnls=hals_stub_factory(I))),
                 cp_post, dict(order=N, options=opt_name), side_nonzero=("normalize" in opt_name))
     # ====================================================================== Tucker / HOOI
-    def tk_setup(N):
+    def tk_setup(N, dtype="float64"):
         def setup(S):
             n, r = dims(N), dims(N, "r")
-            return dict(_S=S, X=S.input("X", n), core=S.input("G", r), fs=[S.input(f"U{k}", [n[k], r[k]]) for k in range(N)], r=r,
+            return dict(_S=S, X=S.input("X", n, dtype), core=S.input("G", r, dtype), fs=[S.input(f"U{k}", [n[k], r[k]], dtype) for k in range(N)], r=r,
                         e1=S.input("e_prev1", []), e2=S.input("e_prev2", []))
         return setup
 
@@ -211,7 +216,7 @@ def obligations(tier):
         def svd_stub(matrix, n_eigenvecs=None, **kw):
             if S.name == "sym":
                 U = G.opaque_tensor("SVDU", [matrix.shape[0], n_eigenvecs], matrix.dtype, ortho_axis=0)
-                return U, G.opaque_tensor("SVDS", [n_eigenvecs]), G.opaque_tensor("SVDV", [n_eigenvecs, matrix.shape[1]], matrix.dtype, ortho_axis=1)
+                return U, G.opaque_tensor("SVDS", [n_eigenvecs]), G.opaque_tensor("SVDV", [n_eigenvecs] + G.axis_sizes(matrix)[1:], matrix.dtype)
             from tensorly.tenalg.svd import svd_interface as real
             U, s_, V = real(matrix, n_eigenvecs=n_eigenvecs, **kw)
             S.record("SVDU", U)
@@ -251,6 +256,8 @@ def obligations(tier):
                 out.append(I["r"][k] <= sprod(I["r"][j] for j in range(N) if j != k))
             return out
         add("_tucker:partial_tucker", f"N={N},all modes", tk_setup(N), lambda I: run_hooi(I, (0, 2), dict()), hooi_post, dict(order=N, modes="all"),
+            clause="reported error ≡ true relative error ∧ finite (orthonormal factors by the svd contract)", assumptions=hooi_pre)
+        add("_tucker:partial_tucker", f"N={N},all modes,complex data", tk_setup(N, "complex128"), lambda I: run_hooi(I, (0, 2), dict()), hooi_post, dict(order=N, modes="all", data="complex"),
             clause="reported error ≡ true relative error ∧ finite (orthonormal factors by the svd contract)", assumptions=hooi_pre)
     # ====================================================================== constrained CP (AO-ADMM): admm by contract (havoc)
     import tensorly.decomposition._constrained_cp as _cc
@@ -396,7 +403,7 @@ def obligations(tier):
             rk.append(rk[0])
             return dict(_S=S, X=S.input("X", n), cores=[S.input(f"G{k}", [rk[k], n[k], rk[k + 1]]) for k in range(N)], rk=rk, e1=S.input("e_prev1", []), e2=S.input("e_prev2", []))
         return setup
-    def run_tr(I, its, ls_solve):
+    def run_tr(I, its, ls_solve, tol=1e-9):
         S = I["_S"]
         cut = LoopCut(_tr.tensor_ring_als)
         out = []
@@ -404,7 +411,7 @@ def obligations(tier):
         import tensorly.random as tlr
         cb = CallbackProbe()
         with stubbed(tlr, random_tr=lambda *a, **k: trt.TRTensor(list(I["cores"]))), stubbed(_tr, validate_tr_rank=lambda shape, rank=None, **k: list(rank)):
-            st0 = cut.prefix(I["X"], rank, ls_solve=ls_solve, callback=cb, tol=1e-9)
+            st0 = cut.prefix(I["X"], rank, ls_solve=ls_solve, callback=cb, tol=tol)
             for it in its:
                 st = dict(st0)
                 st["tr_decomp"] = trt.TRTensor(list(st0["tr_decomp"].factors))
@@ -425,12 +432,13 @@ def obligations(tier):
             for cores, e in run["callback"]:
                 M = SP.tr_to_tensor(S, run["final"])
                 pairs += rel_err_pairs(S, f"callback it={run['it']}", e, S.sqrt(S.sumsq(I["X"])), I["X"], M)
-        pairs.append(("error reported every sweep", sum(len(x["records"]) for x in r), len(r)))
+        pairs.append(("an error value reaches the user every sweep (list or callback)", all(len(x["records"]) + len(x["callback"]) >= 1 for x in r), True))
         pairs += finite_pairs(S, "tr_als")
         return pairs
     for N in (3,) + ((4,) if tier == "thorough" else ()):
         for ls in ("lstsq", "normal_eq"):
             add("_tr_als:tensor_ring_als", f"N={N},ls_solve={ls}", tr_setup(N), lambda I, ls=ls: run_tr(I, (0, 1), ls), tr_post, dict(order=N, ls_solve=ls))
+        add("_tr_als:tensor_ring_als", f"N={N},tol=0,callback", tr_setup(N), lambda I: run_tr(I, (0, 1), "lstsq", tol=0), tr_post, dict(order=N, ls_solve="lstsq", tol=0))
     # ====================================================================== PARAFAC2
     def p2_setup(nI, wts=True):
         def setup(S):
